@@ -21,6 +21,22 @@ CHECKS = {
              "floating point) that the (L0,L1,L2) handed to the cache equal floor(t/(1024b)), floor(t/(32b)) mod 32, floor(t/b) mod 32 for every instant.",
         note="Trusted: interpreter, z3's bit-vector and floating-point theories, the CPython int/int model (correct rounding via 130-bit intermediate). "
              "Clock values outside 1970..2262 are outside the claim."),
+    "C16": dict(
+        text="RpcClient._process_response (with PDU.unpack, Response._unpack, SecTrailer.unpack below it) is executed on a fully symbolic adversarial reply of each "
+             "listed length against an ideal security context holding one authentic sealed reply; on every path that returns a Response z3 proves its stub equals the "
+             "sealed plaintext (and, with header signing, that the trailer is the authenticated one); replies of any other packet type must raise.",
+        note="Trusted: interpreter, z3, the ideal-unwrap contract (only the authentic buffers verify). Strength of NTLM/Kerberos sealing and reply lengths not listed "
+             "are outside the claim."),
+    "C18": dict(
+        text="EptMapResult.unpack and _process_ept_map_result are executed on replies built by an independent NDR64 encoder with symbolic protocol ids, payloads, "
+             "ports, status and every tower-length residue mod 8 (z3 proves the returned port is that of the first tower with a TCP floor, errors exactly for "
+             "status != 0 / no TCP floor), and on arbitrary buffers whose 64-bit tower count is symbolic, where every path must end within the step budget.",
+        note="Trusted: interpreter, z3, the reference encoder. 'Proportional work' is decided as a fixed interpreted-statement budget on buffers up to 76 bytes."),
+    "C20": dict(
+        text="_get_highest_answer, lookup_dc and async_lookup_dc are executed on 1..5 SRV records with symbolic priority/weight/port in any order (the native sort "
+             "runs on symbolic keys, so every ordering and tie is a path); z3 proves min-priority/max-weight selection, field preservation, dot stripping, the "
+             "queried name/type/search flag and sync==async.",
+        note="Trusted: interpreter, z3, resolver stub. More than 5 records and unlisted domain strings are outside the claim."),
 }
 
 _PENDING = "check not built yet in this round (work in progress; see DESIGN.md for the plan)"
